@@ -1,4 +1,5 @@
 import Model.Uuid
+import Model.UuidDecode
 import Driver.Util
 namespace Driver.C19
 open Util
@@ -7,8 +8,7 @@ open Util
     multi-byte sequence never swallows a byte < 0x80); every other rune is ≥ 0x80, and `Uuid.parseLoop` rejects
     at the first such rune whatever it is (theorem `C19_parse_rejects_nonhex`), so one U+FFFD per byte ≥ 0x80
     is an exact stand-in. -/
-def runes (bs : List UInt8) : List Char :=
-  bs.map (fun b => if b.toNat < 128 then Char.ofNat b.toNat else Char.ofNat 0xFFFD)
+def runes (bs : List UInt8) : List Char := Uuid.runes bs
 
 def intArg (s : String) : Option Int := s.toInt?
 def natArg (s : String) : Option Nat := s.toNat?
@@ -16,6 +16,49 @@ def natArg (s : String) : Option Nat := s.toNat?
 def optHex : Option (List UInt8) → String
   | some b => toHex b
   | none => "nil"
+
+
+/-- `ok <hex>` / `err <hex>`: status and destination afterwards -/
+def stat (r : Bool × List UInt8) : String := (if r.1 then "ok " else "err ") ++ toHex r.2
+
+def optBytes (s : String) : Option (Option (List UInt8)) :=
+  if s == "nil" || s == "null" then some none else (parseHex s).map some
+
+/-- a CQL destination `<kind> <content>`: uuid/arr hex16, bytes nil|hex, str hex -/
+def parseDst (kind content : String) : Option Uuid.Dst :=
+  match kind with
+  | "uuid" => (parseHex content).bind (fun b => if b.length = 16 then some (.uuid b) else none)
+  | "arr" => (parseHex content).bind (fun b => if b.length = 16 then some (.arr b) else none)
+  | "bytes" => (optBytes content).map .bytes
+  | "str" => (parseHex content).map .str
+  | _ => none
+
+def showDst : Uuid.Dst → String
+  | .uuid u => toHex u
+  | .arr a => toHex a
+  | .bytes none => "nil"
+  | .bytes (some b) => toHex b
+  | .str s => toHex s
+
+/-- one step of a `useq` line: `t:<hex>` UnmarshalText, `j:<hex>` UnmarshalJSON, `c:<hex|null>` CQL uuid column -/
+def parseStep (w : String) : Option Uuid.Step :=
+  match w.splitOn ":" with
+  | ["t", h] => (parseHex h).map .text
+  | ["j", h] => (parseHex h).map .json
+  | ["c", h] => (optBytes h).map (fun d => .cql (d.getD []))
+  | _ => none
+
+def parseSteps : List String → Option (List Uuid.Step)
+  | [] => some []
+  | w :: ws => do
+    let s ← parseStep w
+    let r ← parseSteps ws
+    pure (s :: r)
+
+def parseLits (s : String) : Option (List (List UInt8)) :=
+  (s.splitOn ",").mapM parseHex
+
+def quoted (bs : List UInt8) : List UInt8 := 34 :: bs ++ [34]
 
 /-- ops:
   parse <hex of the string bytes>      → hex uuid | err
@@ -27,6 +70,15 @@ def optHex : Option (List UInt8) → String
   gen <clockSeq> <hw> <sec> <nsec>     → uuid newClockSeq
   rand <hex16>                         → stamped uuid
   conc <goroutines> <each>             → distinct (theorem C19_unique_partial, total ≤ 16384)
+  utext <prev16> <text>                → ok|err <destination afterwards>   (UnmarshalText on a destination holding prev)
+  ujson <prev16> <data>                → ok|err <destination afterwards>   (UnmarshalJSON called directly)
+  jsonu <kind> <prev16> <doc> <lit>    → json.Unmarshal of doc into a destination holding prev; lit = the literal
+                                         encoding/json hands to UnmarshalJSON (hex,hex…) | invalid | nocall | realloc
+  ucql <col> <kind> <prev> <data|null> → ok|err <destination afterwards>   (gocql.Unmarshal, uuid/timeuuid column)
+  ucqlt <col> <sec> <nsec> <data|null> → ok|err <sec.nsec afterwards>     (gocql.Unmarshal into a *time.Time)
+  mcql <kind> <content>                → ok <16 bytes> | err               (gocql.Marshal of a uuid column value)
+  useq <prev16> <step>...              → ok:<dst>|err:<dst> per step, all on ONE destination
+  rtdirty <prev16> <u16>               → u (every printer → every decoder, destination holding prev)
   tsround / timeround / bound / randchk / parsechk: property oracles, see below -/
 def step (_ : Unit) (ws : List String) : Unit × String :=
   ((), match ws with
@@ -90,6 +142,54 @@ def step (_ : Unit) (ws : List String) : Unit × String :=
                        && u = Uuid.pack (Uuid.digitVals (runes bs)) then "ok" else "ACCEPTED-OUTSIDE-LANGUAGE"
         | none => "ok"
       | none => "bad-op"
+  -- destination-state ops (spec-backed: C19_unmarshal_text_spec / _json_spec / C19_cql_unmarshal_spec /
+  -- C19_decode_independent_of_destination / C19_decode_seq_last_wins / C19_roundtrip_dirty)
+  | ["utext", p, t] => match parseHex p, parseHex t with
+      | some p, some t => if p.length = 16 then stat (Uuid.unmarshalText p t) else "bad-op"
+      | _, _ => "bad-op"
+  | ["ujson", p, d] => match parseHex p, parseHex d with
+      | some p, some d => if p.length = 16 then stat (Uuid.unmarshalJSON p d) else "bad-op"
+      | _, _ => "bad-op"
+  | ["jsonu", _, p, _, lit] => match parseHex p with
+      | some p => if p.length ≠ 16 then "bad-op"
+        else if lit == "invalid" then "err " ++ toHex p
+        else if lit == "nocall" then "nocall " ++ toHex p
+        else if lit == "realloc" then "reallocated"
+        else match parseLits lit with
+          | some ls => stat (Uuid.jsonCalls p ls)
+          | none => "bad-op"
+      | none => "bad-op"
+  | ["ucql", _, kind, p, d] => match parseDst kind p, optBytes d with
+      | some dst, some d =>
+        let r := Uuid.unmarshalCQL (d.getD []) dst
+        (if r.1 then "ok " else "err ") ++ showDst r.2
+      | _, _ => "bad-op"
+  | ["ucqlt", col, ps, pn, d] => match intArg ps, natArg pn, optBytes d with   -- C19_cql_time_destination
+      | some ps, some pn, some d =>
+        let r := Uuid.unmarshalCQLTime (col == "timeuuid") (d.getD []) (ps, pn)
+        (if r.1 then "ok " else "err ") ++ s!"{r.2.1}.{r.2.2}"
+      | _, _, _ => "bad-op"
+  | ["mcql", kind, c] => match (if kind == "bytes" then (optBytes c).map Uuid.Dst.bytes else parseDst kind c) with
+      | some v => match Uuid.marshalCQL v with                                    -- C19_cql_marshal_unmarshal
+        | some b => "ok " ++ toHex b
+        | none => "err"
+      | none => "bad-op"
+  | "useq" :: p :: steps => match parseHex p, parseSteps steps with
+      | some p, some ss => if p.length = 16 then
+          " ".intercalate ((Uuid.runSeq p ss).map (fun r => (if r.1 then "ok:" else "err:") ++ toHex r.2))
+        else "bad-op"
+      | _, _ => "bad-op"
+  | ["rtdirty", p, h] => match parseHex p, parseHex h with
+      | some p, some u => if p.length = 16 ∧ u.length = 16 then
+          let txt := Uuid.asciiBytes (Uuid.print u)
+          let strOf := match Uuid.unmarshalCQL u (.str p) with
+            | (_, .str s) => s
+            | _ => []
+          if Uuid.unmarshalText p txt = (true, u) && Uuid.unmarshalJSON p (quoted txt) = (true, u)
+             && Uuid.unmarshalJSON p txt = (true, u) && Uuid.marshalCQL (.str strOf) = some u then toHex u
+          else "MISMATCH"
+        else "bad-op"
+      | _, _ => "bad-op"
   | ["conc", g, n] => match natArg g, natArg n with
       | some g, some n => if g * n ≤ 16384 then "distinct" else "unconstrained"
       | _, _ => "bad-op"
